@@ -170,3 +170,36 @@ def sami_write_skeleton(c):
 def prove_sami_write_skeleton(ctx):
     from pycaption import SAMIWriter
     ctx.prove("sami.SAMIWriter.write[skeleton]", sami_write_skeleton, functions=[SAMIWriter.write], crosscheck=False)
+
+
+# ------------------------------------------------------------------------------------ SinglePositioningDFXPWriter.write
+
+def single_positioning_write(c):
+    """SinglePositioningDFXPWriter.write: the set with its positioning replaced (`_create_single_positioning_caption_set`,
+    from this writer's positioning) is written by DFXPWriter.write - with the SAME `force` - and its document returned"""
+    from pycaption.dfxp.extras import SinglePositioningDFXPWriter as SP
+    force = c.pick("force", ["", "fr-FR", "zz"])
+    how = c.pick("force_passed", ["positionally", "by keyword", "not at all"])
+    w = c.new(SP, default_positioning="the positioning", open_span=False, p_style=False, region_creator=None, write_inline_positioning=False)
+    log = []
+    c.interp.contracts.update({
+        "pycaption.dfxp.extras:SinglePositioningDFXPWriter._create_single_positioning_caption_set":
+            lambda interp, fn, a, kw: (log.append(("single", a)), "the repositioned set")[1],
+        "pycaption.dfxp.base:DFXPWriter.write": lambda interp, fn, a, kw: (log.append(("write", a[1:], dict(kw))), "the document")[1]})
+    if how == "positionally":
+        r = c.call(SP.write, w, "the caption set", force, compare=False)
+    elif how == "by keyword":
+        r = c.call(SP.write, w, "the caption set", force=force, compare=False)
+    else:
+        r, force = c.call(SP.write, w, "the caption set", compare=False), ""
+    c.ensure("positioning_replaced_by_this_writers", [e_ for e_ in log if e_[0] == "single"] == [("single", ("the caption set", "the positioning"))]
+             or [e_ for e_ in log if e_[0] == "single"] == [("single", (w, "the caption set", "the positioning"))])
+    writes = [e_ for e_ in log if e_[0] == "write"]
+    c.ensure("written_once_by_the_dfxp_writer_with_the_same_force", len(writes) == 1 and
+             (writes[0][1:] == (("the repositioned set", force), {}) or writes[0][1:] == (("the repositioned set",), {"force": force})))
+    c.ensure("its_document_is_returned", r == "the document")
+
+
+def prove_single_positioning_write(ctx):
+    from pycaption.dfxp.extras import SinglePositioningDFXPWriter as SP
+    ctx.prove("dfxp.SinglePositioningDFXPWriter.write", single_positioning_write, functions=[SP.write], crosscheck=False)
